@@ -57,7 +57,7 @@ M = [
 
 # changes that do NOT break any property: every listed check must stay at exit 0 (name, checks to run, file, old, nth, new, note)
 BENIGN = [
- ("benign_array_growth_x2", "C04 C05 C12 C19", "src/Array.c", "    a->nslots = a->nitems + a->nitems / 2;", 1, "    a->nslots = a->nitems * 2 + 3;", "Array grows by doubling"),
+ ("benign_array_growth_x2", "C04 C05 C12 C19", "src/Array.c", "    size_t nslots = a->nitems + a->nitems / 2;", 1, "    size_t nslots = a->nitems * 2 + 3;", "Array grows by doubling"),
  ("benign_table_load_factor", "C02 C05 C12 C10", "src/Table.c", "static const double Table_Load_Factor = 0.9;", 1, "static const double Table_Load_Factor = 0.6;", "Table rehashes earlier"),
  ("benign_gc_load_factor", "C01 C06 C17", "src/GC.c", "static const double GC_Load_Factor = 0.9;", 1, "static const double GC_Load_Factor = 0.7;", "collector's pointer table rehashes earlier"),
  ("benign_gc_hash_shift", "C01 C06 C17 C18", "src/GC.c", "  return ((uintptr_t)ptr) >> 3;", 1, "  return ((uintptr_t)ptr) >> 4;", "collector hashes addresses differently"),
